@@ -97,8 +97,19 @@ impl<L: Language> RuleRegistration<L> {
     Ok(())
   }
 
+  pub(crate) fn try_insert_rewriter(
+    &self,
+    id: &str,
+    rewriter: RuleCore<L>,
+  ) -> Result<(), ReferentRuleError> {
+    self.rewriters.insert(id, rewriter)
+  }
+
+  #[cfg(test)]
   pub(crate) fn insert_rewriter(&self, id: &str, rewriter: RuleCore<L>) {
-    self.rewriters.insert(id, rewriter).expect("should work");
+    self
+      .try_insert_rewriter(id, rewriter)
+      .expect("should work");
   }
 
   /// check that `matches` inside local utility rules refer to defined utilities
